@@ -17,7 +17,7 @@ from ..flow import PathEnum, cond_facts
 from ..model import AnalysisError, Func, Repo, dotted, is_name, norm, walk_shallow
 from ..report import Ledger
 from ..sym import Lin, State, Sym, SymExec, as_lin, NotNumeric
-from ..util import arg_for_param, contains, names_in, paths
+from ..util import end_pos, pos, arg_for_param, contains, names_in, paths
 from .shared import analyse_chunker, chunk_spec, fetch_call, gap_iter_exact, _ChunkExec
 
 PROP = "C13"
@@ -136,7 +136,7 @@ def run(repo: Repo, L: Ledger, tier: str):
     truncs = [c for c in walk_shallow(proc.node) if isinstance(c, ast.Call) and isinstance(c.func, ast.Attribute) and c.func.attr == "truncate" and is_name(c.func.value, buf)]
     if truncs and not (truncs[0].args and norm(truncs[0].args[0]) == "0"):
         # truncate() without size truncates at the current position: needs seek(0) before
-        seeks = [c for c in walk_shallow(proc.node) if isinstance(c, ast.Call) and isinstance(c.func, ast.Attribute) and c.func.attr == "seek" and c.lineno < truncs[0].lineno]
+        seeks = [c for c in walk_shallow(proc.node) if isinstance(c, ast.Call) and isinstance(c.func, ast.Attribute) and c.func.attr == "seek" and pos(c) < pos(truncs[0])]
         if not seeks:
             ok, why = False, "buffer truncated at its current position, i.e. not emptied"
     L.check(ok, "R2", proc.short + ":empties", "flush takes the value and empties the buffer on every path", why, proc.loc())
